@@ -529,6 +529,205 @@ def lockFuel : Pc → Nat
 theorem lockFuel_le (p : Pc) : lockFuel p ≤ 8 := by cases p <;> simp
 theorem lockFuel_pos_iff (p : Pc) : 0 < lockFuel p ↔ holdsLock p = true := by cases p <;> simp
 
+/-- steps left, for the thread the next admission is waiting for (owner of the open transaction, then the same thread waking the head of the queue, then the token holder), until that admission -/
+def stageFuel : Pc → Nat
+  | .wClrEv => 32
+  | .wRelA => 31
+  | .wSetupId => 30
+  | .wSetupCopy => 29
+  | .wReturn => 28
+  | .wBody => 27
+  | .cAcq => 26
+  | .rAcq => 26
+  | .cAppend => 25
+  | .cPrune => 24
+  | .cNodes => 23
+  | .eTxnNone => 22
+  | .eTestW => 14
+  | .ePop => 13
+  | .eSet => 12
+  | .wWait => 4
+  | .wAcq => 3
+  | .wTest => 2
+  | .wMkTxn => 1
+  | _ => 0
+
+@[simp, grind =] theorem stageFuel_idle : stageFuel .idle = 0 := rfl
+@[simp, grind =] theorem stageFuel_wInit : stageFuel .wInit = 0 := rfl
+@[simp, grind =] theorem stageFuel_wAcq : stageFuel .wAcq = 3 := rfl
+@[simp, grind =] theorem stageFuel_wTest : stageFuel .wTest = 2 := rfl
+@[simp, grind =] theorem stageFuel_wMkTxn : stageFuel .wMkTxn = 1 := rfl
+@[simp, grind =] theorem stageFuel_wClrEv : stageFuel .wClrEv = 32 := rfl
+@[simp, grind =] theorem stageFuel_wRelA : stageFuel .wRelA = 31 := rfl
+@[simp, grind =] theorem stageFuel_wNewEv : stageFuel .wNewEv = 0 := rfl
+@[simp, grind =] theorem stageFuel_wAppend : stageFuel .wAppend = 0 := rfl
+@[simp, grind =] theorem stageFuel_wRelB : stageFuel .wRelB = 0 := rfl
+@[simp, grind =] theorem stageFuel_wWait : stageFuel .wWait = 4 := rfl
+@[simp, grind =] theorem stageFuel_wSetupId : stageFuel .wSetupId = 30 := rfl
+@[simp, grind =] theorem stageFuel_wSetupCopy : stageFuel .wSetupCopy = 29 := rfl
+@[simp, grind =] theorem stageFuel_wReturn : stageFuel .wReturn = 28 := rfl
+@[simp, grind =] theorem stageFuel_wBody : stageFuel .wBody = 27 := rfl
+@[simp, grind =] theorem stageFuel_cAcq : stageFuel .cAcq = 26 := rfl
+@[simp, grind =] theorem stageFuel_cAppend : stageFuel .cAppend = 25 := rfl
+@[simp, grind =] theorem stageFuel_cPrune : stageFuel .cPrune = 24 := rfl
+@[simp, grind =] theorem stageFuel_cNodes : stageFuel .cNodes = 23 := rfl
+@[simp, grind =] theorem stageFuel_rAcq : stageFuel .rAcq = 26 := rfl
+@[simp, grind =] theorem stageFuel_eTxnNone : stageFuel .eTxnNone = 22 := rfl
+@[simp, grind =] theorem stageFuel_eTestW : stageFuel .eTestW = 14 := rfl
+@[simp, grind =] theorem stageFuel_ePop : stageFuel .ePop = 13 := rfl
+@[simp, grind =] theorem stageFuel_eSet : stageFuel .eSet = 12 := rfl
+@[simp, grind =] theorem stageFuel_eRel : stageFuel .eRel = 0 := rfl
+@[simp, grind =] theorem stageFuel_rdAcq : stageFuel .rdAcq = 0 := rfl
+@[simp, grind =] theorem stageFuel_rdPick : stageFuel .rdPick = 0 := rfl
+@[simp, grind =] theorem stageFuel_rdAdd : stageFuel .rdAdd = 0 := rfl
+@[simp, grind =] theorem stageFuel_rdRel : stageFuel .rdRel = 0 := rfl
+@[simp, grind =] theorem stageFuel_rdRet : stageFuel .rdRet = 0 := rfl
+@[simp, grind =] theorem stageFuel_rdBody : stageFuel .rdBody = 0 := rfl
+@[simp, grind =] theorem stageFuel_xAcq : stageFuel .xAcq = 0 := rfl
+@[simp, grind =] theorem stageFuel_xRemove : stageFuel .xRemove = 0 := rfl
+@[simp, grind =] theorem stageFuel_xPrune : stageFuel .xPrune = 0 := rfl
+@[simp, grind =] theorem stageFuel_xRel : stageFuel .xRel = 0 := rfl
+@[simp, grind =] theorem stageFuel_done : stageFuel .done = 0 := rfl
+
+/-- own steps a reader has left until it is finished (`reader()` returns at 6, `_end_read` at 0) -/
+def readerFuel : Pc → Nat
+  | .idle => 11
+  | .rdAcq => 10
+  | .rdPick => 9
+  | .rdAdd => 8
+  | .rdRel => 7
+  | .rdRet => 6
+  | .rdBody => 5
+  | .xAcq => 4
+  | .xRemove => 3
+  | .xPrune => 2
+  | .xRel => 1
+  | _ => 0
+
+@[simp, grind =] theorem readerFuel_idle : readerFuel .idle = 11 := rfl
+@[simp, grind =] theorem readerFuel_wInit : readerFuel .wInit = 0 := rfl
+@[simp, grind =] theorem readerFuel_wAcq : readerFuel .wAcq = 0 := rfl
+@[simp, grind =] theorem readerFuel_wTest : readerFuel .wTest = 0 := rfl
+@[simp, grind =] theorem readerFuel_wMkTxn : readerFuel .wMkTxn = 0 := rfl
+@[simp, grind =] theorem readerFuel_wClrEv : readerFuel .wClrEv = 0 := rfl
+@[simp, grind =] theorem readerFuel_wRelA : readerFuel .wRelA = 0 := rfl
+@[simp, grind =] theorem readerFuel_wNewEv : readerFuel .wNewEv = 0 := rfl
+@[simp, grind =] theorem readerFuel_wAppend : readerFuel .wAppend = 0 := rfl
+@[simp, grind =] theorem readerFuel_wRelB : readerFuel .wRelB = 0 := rfl
+@[simp, grind =] theorem readerFuel_wWait : readerFuel .wWait = 0 := rfl
+@[simp, grind =] theorem readerFuel_wSetupId : readerFuel .wSetupId = 0 := rfl
+@[simp, grind =] theorem readerFuel_wSetupCopy : readerFuel .wSetupCopy = 0 := rfl
+@[simp, grind =] theorem readerFuel_wReturn : readerFuel .wReturn = 0 := rfl
+@[simp, grind =] theorem readerFuel_wBody : readerFuel .wBody = 0 := rfl
+@[simp, grind =] theorem readerFuel_cAcq : readerFuel .cAcq = 0 := rfl
+@[simp, grind =] theorem readerFuel_cAppend : readerFuel .cAppend = 0 := rfl
+@[simp, grind =] theorem readerFuel_cPrune : readerFuel .cPrune = 0 := rfl
+@[simp, grind =] theorem readerFuel_cNodes : readerFuel .cNodes = 0 := rfl
+@[simp, grind =] theorem readerFuel_rAcq : readerFuel .rAcq = 0 := rfl
+@[simp, grind =] theorem readerFuel_eTxnNone : readerFuel .eTxnNone = 0 := rfl
+@[simp, grind =] theorem readerFuel_eTestW : readerFuel .eTestW = 0 := rfl
+@[simp, grind =] theorem readerFuel_ePop : readerFuel .ePop = 0 := rfl
+@[simp, grind =] theorem readerFuel_eSet : readerFuel .eSet = 0 := rfl
+@[simp, grind =] theorem readerFuel_eRel : readerFuel .eRel = 0 := rfl
+@[simp, grind =] theorem readerFuel_rdAcq : readerFuel .rdAcq = 10 := rfl
+@[simp, grind =] theorem readerFuel_rdPick : readerFuel .rdPick = 9 := rfl
+@[simp, grind =] theorem readerFuel_rdAdd : readerFuel .rdAdd = 8 := rfl
+@[simp, grind =] theorem readerFuel_rdRel : readerFuel .rdRel = 7 := rfl
+@[simp, grind =] theorem readerFuel_rdRet : readerFuel .rdRet = 6 := rfl
+@[simp, grind =] theorem readerFuel_rdBody : readerFuel .rdBody = 5 := rfl
+@[simp, grind =] theorem readerFuel_xAcq : readerFuel .xAcq = 4 := rfl
+@[simp, grind =] theorem readerFuel_xRemove : readerFuel .xRemove = 3 := rfl
+@[simp, grind =] theorem readerFuel_xPrune : readerFuel .xPrune = 2 := rfl
+@[simp, grind =] theorem readerFuel_xRel : readerFuel .xRel = 1 := rfl
+@[simp, grind =] theorem readerFuel_done : readerFuel .done = 0 := rfl
+
+/-- the thread has ended its write transaction and is about to wake the head of the queue -/
+def endPc : Pc → Bool
+  | .eTestW | .ePop | .eSet => true
+  | _ => false
+
+@[simp, grind =] theorem endPc_idle : endPc .idle = false := rfl
+@[simp, grind =] theorem endPc_wInit : endPc .wInit = false := rfl
+@[simp, grind =] theorem endPc_wAcq : endPc .wAcq = false := rfl
+@[simp, grind =] theorem endPc_wTest : endPc .wTest = false := rfl
+@[simp, grind =] theorem endPc_wMkTxn : endPc .wMkTxn = false := rfl
+@[simp, grind =] theorem endPc_wClrEv : endPc .wClrEv = false := rfl
+@[simp, grind =] theorem endPc_wRelA : endPc .wRelA = false := rfl
+@[simp, grind =] theorem endPc_wNewEv : endPc .wNewEv = false := rfl
+@[simp, grind =] theorem endPc_wAppend : endPc .wAppend = false := rfl
+@[simp, grind =] theorem endPc_wRelB : endPc .wRelB = false := rfl
+@[simp, grind =] theorem endPc_wWait : endPc .wWait = false := rfl
+@[simp, grind =] theorem endPc_wSetupId : endPc .wSetupId = false := rfl
+@[simp, grind =] theorem endPc_wSetupCopy : endPc .wSetupCopy = false := rfl
+@[simp, grind =] theorem endPc_wReturn : endPc .wReturn = false := rfl
+@[simp, grind =] theorem endPc_wBody : endPc .wBody = false := rfl
+@[simp, grind =] theorem endPc_cAcq : endPc .cAcq = false := rfl
+@[simp, grind =] theorem endPc_cAppend : endPc .cAppend = false := rfl
+@[simp, grind =] theorem endPc_cPrune : endPc .cPrune = false := rfl
+@[simp, grind =] theorem endPc_cNodes : endPc .cNodes = false := rfl
+@[simp, grind =] theorem endPc_rAcq : endPc .rAcq = false := rfl
+@[simp, grind =] theorem endPc_eTxnNone : endPc .eTxnNone = false := rfl
+@[simp, grind =] theorem endPc_eTestW : endPc .eTestW = true := rfl
+@[simp, grind =] theorem endPc_ePop : endPc .ePop = true := rfl
+@[simp, grind =] theorem endPc_eSet : endPc .eSet = true := rfl
+@[simp, grind =] theorem endPc_eRel : endPc .eRel = false := rfl
+@[simp, grind =] theorem endPc_rdAcq : endPc .rdAcq = false := rfl
+@[simp, grind =] theorem endPc_rdPick : endPc .rdPick = false := rfl
+@[simp, grind =] theorem endPc_rdAdd : endPc .rdAdd = false := rfl
+@[simp, grind =] theorem endPc_rdRel : endPc .rdRel = false := rfl
+@[simp, grind =] theorem endPc_rdRet : endPc .rdRet = false := rfl
+@[simp, grind =] theorem endPc_rdBody : endPc .rdBody = false := rfl
+@[simp, grind =] theorem endPc_xAcq : endPc .xAcq = false := rfl
+@[simp, grind =] theorem endPc_xRemove : endPc .xRemove = false := rfl
+@[simp, grind =] theorem endPc_xPrune : endPc .xPrune = false := rfl
+@[simp, grind =] theorem endPc_xRel : endPc .xRel = false := rfl
+@[simp, grind =] theorem endPc_done : endPc .done = false := rfl
+
+/-- program points that acquire `_version_lock` -/
+def acqPc : Pc → Bool
+  | .wAcq | .cAcq | .rAcq | .rdAcq | .xAcq => true
+  | _ => false
+
+@[simp, grind =] theorem acqPc_idle : acqPc .idle = false := rfl
+@[simp, grind =] theorem acqPc_wInit : acqPc .wInit = false := rfl
+@[simp, grind =] theorem acqPc_wAcq : acqPc .wAcq = true := rfl
+@[simp, grind =] theorem acqPc_wTest : acqPc .wTest = false := rfl
+@[simp, grind =] theorem acqPc_wMkTxn : acqPc .wMkTxn = false := rfl
+@[simp, grind =] theorem acqPc_wClrEv : acqPc .wClrEv = false := rfl
+@[simp, grind =] theorem acqPc_wRelA : acqPc .wRelA = false := rfl
+@[simp, grind =] theorem acqPc_wNewEv : acqPc .wNewEv = false := rfl
+@[simp, grind =] theorem acqPc_wAppend : acqPc .wAppend = false := rfl
+@[simp, grind =] theorem acqPc_wRelB : acqPc .wRelB = false := rfl
+@[simp, grind =] theorem acqPc_wWait : acqPc .wWait = false := rfl
+@[simp, grind =] theorem acqPc_wSetupId : acqPc .wSetupId = false := rfl
+@[simp, grind =] theorem acqPc_wSetupCopy : acqPc .wSetupCopy = false := rfl
+@[simp, grind =] theorem acqPc_wReturn : acqPc .wReturn = false := rfl
+@[simp, grind =] theorem acqPc_wBody : acqPc .wBody = false := rfl
+@[simp, grind =] theorem acqPc_cAcq : acqPc .cAcq = true := rfl
+@[simp, grind =] theorem acqPc_cAppend : acqPc .cAppend = false := rfl
+@[simp, grind =] theorem acqPc_cPrune : acqPc .cPrune = false := rfl
+@[simp, grind =] theorem acqPc_cNodes : acqPc .cNodes = false := rfl
+@[simp, grind =] theorem acqPc_rAcq : acqPc .rAcq = true := rfl
+@[simp, grind =] theorem acqPc_eTxnNone : acqPc .eTxnNone = false := rfl
+@[simp, grind =] theorem acqPc_eTestW : acqPc .eTestW = false := rfl
+@[simp, grind =] theorem acqPc_ePop : acqPc .ePop = false := rfl
+@[simp, grind =] theorem acqPc_eSet : acqPc .eSet = false := rfl
+@[simp, grind =] theorem acqPc_eRel : acqPc .eRel = false := rfl
+@[simp, grind =] theorem acqPc_rdAcq : acqPc .rdAcq = true := rfl
+@[simp, grind =] theorem acqPc_rdPick : acqPc .rdPick = false := rfl
+@[simp, grind =] theorem acqPc_rdAdd : acqPc .rdAdd = false := rfl
+@[simp, grind =] theorem acqPc_rdRel : acqPc .rdRel = false := rfl
+@[simp, grind =] theorem acqPc_rdRet : acqPc .rdRet = false := rfl
+@[simp, grind =] theorem acqPc_rdBody : acqPc .rdBody = false := rfl
+@[simp, grind =] theorem acqPc_xAcq : acqPc .xAcq = true := rfl
+@[simp, grind =] theorem acqPc_xRemove : acqPc .xRemove = false := rfl
+@[simp, grind =] theorem acqPc_xPrune : acqPc .xPrune = false := rfl
+@[simp, grind =] theorem acqPc_xRel : acqPc .xRel = false := rfl
+@[simp, grind =] theorem acqPc_done : acqPc .done = false := rfl
+
+theorem stageFuel_lt (p : Pc) : stageFuel p < 40 := by cases p <;> simp
+theorem readerFuel_le (p : Pc) : readerFuel p ≤ 11 := by cases p <;> simp
+
 theorem snapAPc_owner (p : Pc) : snapAPc p = true → isOwner p = true := by cases p <;> simp
 theorem commitPc_owner (p : Pc) : commitPc p = true → isOwner p = true := by cases p <;> simp
 theorem vidPc_owner (p : Pc) : vidPc p = true → isOwner p = true := by cases p <;> simp
